@@ -24,7 +24,7 @@ theorem batch_limits (cfg : Cfg) (s s' : State) (hr : Reachable cfg s) (pw : Nat
   repeat' split at hs
   all_goals (first | (cases hs; done) | skip)
   rename_i _ P hP _ b k hsend _ B hBq hg
-  obtain ⟨h1, h2, h3⟩ := hg
+  obtain ⟨-, h1, h2, h3⟩ := hg
   have ⟨hl, hb, hsum⟩ := hI _ _ hBq
   refine ⟨b, B, P, k, hP, hsend, hBq, h3, h1, h2, ?_, ?_⟩
   · rw [← h3, List.length_map]; exact hl
